@@ -19,7 +19,10 @@ PRELUDE = ("#[global_allocator]\nstatic ALLOC: ::vt::CountingAlloc = ::vt::Count
 
 def main():
     chk = vf.Check("C14")
-    cases, res = vf.mc_cases(chk, "MC_C14", actions=["OuterCall", "NestedCall", "Work"], workers=4)
+    thorough = vf.tier() == "thorough"
+    maxdepth = 6 if thorough else 3
+    cases, res = vf.mc_cases(chk, "MC_C14", cfg_edits=({"MaxDepth = 3": f"MaxDepth = {maxdepth}"} if thorough else None),
+                             actions=["OuterCall", "NestedCall", "Work"], workers=8)
     progs = {}
     for n, c in enumerate(cases):
         c["feature"] = (n % 2 == 0)
@@ -71,7 +74,7 @@ def main():
     chk.cov["programs_rejected_by_rustc"] = len(dropped)
     chk.cov["distinct_nontrivial"] = sum(1 for c in cases if c["static"] and c["case"] not in dropped)
     chk.cov["rule"] = ("program kinds {fn, mod, entraited trait (Self), static dependency inversion, dyn async_trait (control)} x call-chain depth "
-                       "1..3 x sync/async x innermost work {none, 1 allocation, a 4 KiB buffer held across an await} x {1, 2} bounds on each dependency parameter x returning {an owned value, a borrow} x {plain, generic over a further type parameter (depth 1), a further by-reference argument}; per program a direct-call and a trait-call scenario measured by a "
+                       f"1..{maxdepth} " "x sync/async x innermost work {none, 1 allocation, a 4 KiB buffer held across an await} x {1, 2} bounds on each dependency parameter x returning {an owned value, a borrow, an opaque `impl Fn() -> u64` (sync fn / mod)} x {no mock option, `mockall` (fn / mod, depth <= 2)} x {plain, generic over a further type parameter (depth 1), a further by-reference argument}; per program a direct-call and a trait-call scenario measured by a "
                        "counting global allocator (after a warm-up call); non-trivial = static delegation and compiled")
     chk.cov["exhaustive"] = True
     chk.cov["samples"] = [{"program": c["prog"], "allocs": {k: observed.get((c["case"], k)) for k in ("direct", "trait")}} for c in cases[::24][:5]]
